@@ -7,8 +7,9 @@
 #define OK(c, msg) __CPROVER_assert(c, msg)
 
 /* laws over THREE arbitrary ids (full 64-bit digests, arbitrary stored values): loop-free, complete */
+unsigned long nondet_ulong(void); int nondet_int(void);
 #define LAWS(ID, EQ, LT, HASH, HT) \
-  ID a, b, c; HT h; \
+  HT h; \
   _Bool ab = EQ(&a, &b), ba = EQ(&b, &a), bc = EQ(&b, &c), ac = EQ(&a, &c); \
   OK(EQ(&a, &a), "== is reflexive"); \
   OK(ab == ba, "== is symmetric"); \
@@ -22,11 +23,17 @@
   OK(!ab || HASH(&h, &a) == HASH(&h, &b), "equal ids hash equally");
 void lemma_anyid_plain(void) LEMMA
 {
+  /* counterexample values are read back from these assignments by the replay step */
+  unsigned long cex_da = nondet_ulong(), cex_db = nondet_ulong(), cex_dc = nondet_ulong();
+  IdE a, b, c; a.digest = cex_da; b.digest = cex_db; c.digest = cex_dc;
   LAWS(IdE, eq__EmptyStorage, lt__EmptyStorage, HashE_call, HashE)
   OK(ab == (a.digest == b.digest), "without value storage: ids are equal exactly when their digests are");
 }
 void lemma_anyid_stored(void) LEMMA
 {
+  unsigned long cex_da = nondet_ulong(), cex_db = nondet_ulong(), cex_dc = nondet_ulong();
+  int cex_va = nondet_int(), cex_vb = nondet_int(), cex_vc = nondet_int();
+  IdS a, b, c; a.digest = cex_da; b.digest = cex_db; c.digest = cex_dc; a.value.v = cex_va; b.value.v = cex_vb; c.value.v = cex_vc;
   LAWS(IdS, eq__Stor, lt__Stor, HashS_call, HashS)
   OK(!(a.digest == b.digest && (a.value.v >> 2) != (b.value.v >> 2)) || (!ab && (lab || lba)), "with value storage: colliding digests with different values stay distinct, ordered ids");
 }
